@@ -20,6 +20,7 @@ import time
 from multiprocessing import Pool
 
 from harness import c08_lib as L
+from harness import c08_paths as CP
 from harness import common
 from harness.common import Model
 
@@ -614,26 +615,34 @@ def l2_worker(task):
         expect = L.ref_program(prog["ops"], env)
         holders = 0
         for p in paths:
-            ok, ev = p.holds(inp)
-            if ok is None:
-                res["errors"] += 1
-                continue
-            if not ok:
-                continue
-            holders += 1
-            if p.kind != "ok":
-                res["errors"] += 1
-                continue
-            try:
-                rb = p.ret_bytes(ev)
-            except Exception as e:  # noqa: BLE001
-                res["errors"] += 1
-                res.setdefault("eval_errors", []).append(f"{type(e).__name__}: {e}"[:160])
-                continue
-            got = [int.from_bytes(rb[32 * i:32 * i + 32], "big") for i in range(nload)]
-            res["evaluated"] += 1
-            if got != expect:
-                res["fails"].append({"env": env, "halmos": got, "flat": expect})
+            # every model of the path counts: the initial arrays of a non-symbolic account are
+            # uninterpreted, so besides the all-zero interpretation the path is evaluated with the
+            # initial arrays non-zero wherever no emptiness axiom of the path pins them to 0
+            for default in (0,) + CP.SENTINELS[:1]:
+                ok, ev = CP.holds_under(p, inp, default)
+                if ok is None:
+                    res["errors"] += 1
+                    continue
+                if not ok:
+                    continue
+                if default == 0:
+                    holders += 1
+                if p.kind != "ok":
+                    res["errors"] += 1
+                    continue
+                try:
+                    rb = p.ret_bytes(ev)
+                except Exception as e:  # noqa: BLE001
+                    res["errors"] += 1
+                    res.setdefault("eval_errors", []).append(f"{type(e).__name__}: {e}"[:160])
+                    continue
+                got = [int.from_bytes(rb[32 * i:32 * i + 32], "big") for i in range(nload)]
+                res["evaluated"] += 1
+                if default:
+                    res["adversarial"] = res.get("adversarial", 0) + 1
+                if got != expect:
+                    res["fails"].append({"env": env, "halmos": got, "flat": expect, "initial_arrays": "all zero" if default == 0 else
+                                         f"{hex(default)} at every index without an emptiness axiom in the path (a model of the path condition)"})
         if not holders and not flags["crashed"] and not any(k.startswith("stuck") for k in res["kinds"]):
             res["uncovered"] += 1
     return res
@@ -686,8 +695,8 @@ def run_l2(rep, tier, r):
             f = val["fails"][0]
             feats = program_features(prog, f["env"])
             sigs = known_sigs(feats, prog["layout"])
-            report(rep, f"SLOAD returns a value different from the last write (layout={prog['layout']}): program {prog['ops']} under args {f['env']}: halmos {[hex(x) for x in f['halmos']]} vs EVM {[hex(x) for x in f['flat']]}",
-                   case={"l2": prog, "env": f["env"], "halmos": f["halmos"], "flat": f["flat"], "code": val["code"]}, sigs=sigs)
+            report(rep, f"SLOAD returns a value different from the last write (layout={prog['layout']}): program {prog['ops']} under args {f['env']}: halmos {[hex(x) for x in f['halmos']]} vs EVM {[hex(x) for x in f['flat']]} (initial arrays: {f.get('initial_arrays')})",
+                   case={"l2": prog, "env": f["env"], "halmos": f["halmos"], "flat": f["flat"], "code": val["code"], "initial_arrays": f.get("initial_arrays")}, sigs=sigs)
             nfail += 1
     rep.coverage["l2_stats"] = stats
     rep.coverage["l2_seconds"] = round(time.time() - t0, 1)
@@ -719,6 +728,13 @@ def corpus_programs():
                   "nargs": 3, "layout": layout, "tags": ["narrowmap", "narrow-constant-key"], "name": "narrow-const", "envs": [[0, 0, 0]]})
         P.append({"ops": [("sstore", ("S256", ("S512", ("K", 2), ("K", 0))), ("K", 0x42)), ("sload", ("S512", ("S256", ("K", 2)), ("K", 0)))],
                   "nargs": 3, "layout": layout, "tags": ["map", "arr", "hash-valued-key"], "name": "hash-key"})
+        # a store whose key may or may not equal the constant key loaded next: select() stops at the
+        # undecided store, the value of the never-written entry comes from the path's axioms only
+        P.append({"ops": [("sstore", ("S512", ("V", 0), ("K", 1)), ("K", 7)), ("sload", ("S512", ("K", 5), ("K", 1))),
+                          ("sstore", ("Add", [("S256", ("K", 2)), ("V", 1)]), ("V", 2)), ("sload", ("Add", [("S256", ("K", 2)), ("K", 3)])),
+                          ("tstore", ("S512", ("V", 0), ("K", 1)), ("K", 9)), ("tload", ("S512", ("K", 5), ("K", 1)))],
+                  "nargs": 3, "layout": layout, "tags": ["map", "arr", "transient"], "name": "undecided-store-then-constant-load",
+                  "envs": [[5, 3, 8], [4, 2, 8]]})
         P.append({"ops": [("tstore", ("K", 1), ("K", 5)), ("sstore", ("K", 1), ("K", 6)), ("tload", ("K", 1)), ("sload", ("K", 1)),
                           ("tload", ("Add", [("S256", ("K", 2)), ("V", 0)]))],
                   "nargs": 3, "layout": layout, "tags": ["transient"], "name": "transient-separate"})
